@@ -2011,18 +2011,13 @@ void ScriptVariable::operator/=(const ScriptVariable& value)
         break;
 
     case uint32_t(variableType_e::Vector + variableType_e::Vector * variableType_e::Max): // ( vector ) / ( vector )
-        m_data.vectorValue = vec_zero;
-
-        if (value.m_data.vectorValue[0] != 0) {
-            m_data.vectorValue[0] = m_data.vectorValue[0] / value.m_data.vectorValue[0];
-        }
-
-        if (value.m_data.vectorValue[1] != 0) {
-            m_data.vectorValue[1] = m_data.vectorValue[1] / value.m_data.vectorValue[1];
-        }
-
-        if (value.m_data.vectorValue[2] != 0) {
-            m_data.vectorValue[2] = m_data.vectorValue[2] / value.m_data.vectorValue[2];
+        // component-wise; a zero divisor component yields 0
+        // (the payload pointer must keep pointing at this variable's own float[3])
+        for (int i = 0; i < 3; i++)
+        {
+            m_data.vectorValue[i] = value.m_data.vectorValue[i] != 0
+                ? m_data.vectorValue[i] / value.m_data.vectorValue[i]
+                : 0.f;
         }
         break;
     }
@@ -2129,18 +2124,13 @@ void ScriptVariable::operator%=(const ScriptVariable& value)
         break;
 
     case uint32_t(variableType_e::Vector + variableType_e::Vector * variableType_e::Max): // ( vector ) % ( vector )
-        m_data.vectorValue = vec_zero;
-
-        if (value.m_data.vectorValue[0] != 0) {
-            m_data.vectorValue[0] = fmodf(m_data.vectorValue[0], value.m_data.vectorValue[0]);
-        }
-
-        if (value.m_data.vectorValue[1] != 0) {
-            m_data.vectorValue[1] = fmodf(m_data.vectorValue[1], value.m_data.vectorValue[1]);
-        }
-
-        if (value.m_data.vectorValue[2] != 0) {
-            m_data.vectorValue[2] = fmodf(m_data.vectorValue[2], value.m_data.vectorValue[2]);
+        // component-wise; a zero divisor component yields 0
+        // (the payload pointer must keep pointing at this variable's own float[3])
+        for (int i = 0; i < 3; i++)
+        {
+            m_data.vectorValue[i] = value.m_data.vectorValue[i] != 0
+                ? fmodf(m_data.vectorValue[i], value.m_data.vectorValue[i])
+                : 0.f;
         }
 
         break;
